@@ -141,3 +141,13 @@ CASES += [
         (_RDM7, "    def __propagate_short_exp_with_relaxation_field_oper(self, rhoi, L=4):",
                 "    def __propagate_short_exp_with_relaxation_field_oper2(self, rhoi, L=4):\n        debug(\"(12b)\")\n\n    def __propagate_short_exp_with_relaxation_field_oper(self, rhoi, L=4):", 1)]},
 ]
+
+_LF9 = "quantarhei/qm/liouvillespace/lindbladform.py"
+CASES += [
+    {"name": "the Lindblad form keeps the operators of the system-bath interaction themselves (asarray of an array of the same type; seeded change of round 9)",
+     "kind": "mutant", "rule": "C07-M", "edits": [(_LF9, "            KK = sbi.KK.copy()\n", "            KK = numpy.asarray(sbi.KK, dtype=REAL)\n", 1)]},
+    {"name": "the Lindblad form keeps the operators as a slice of the interaction's array", "kind": "mutant", "rule": "C07-M",
+     "edits": [(_LF9, "            KK = sbi.KK.copy()\n", "            KK = sbi.KK[:, :, :]\n", 1)]},
+    {"name": "the copy of the operators is made with numpy.copy", "kind": "twin",
+     "edits": [(_LF9, "            KK = sbi.KK.copy()\n", "            KK = numpy.copy(sbi.KK)\n", 1)]},
+]
